@@ -67,6 +67,24 @@ def rules(ctx, db):
                     okn = True
         ctx.ob("R1", "uninit-starts-at-initialized-length", okn,
                "Uninit::new slices the buffer from its current initialised length (the view is the spare tail)", f[0] if f else None)
+        au = [g for g in db.fns.values() if g.impl and g.impl.get("self_adt") == un["name"] and g.short == "as_uninit"]
+        if not au:
+            ctx.missing("R1", "Uninit::as_uninit")
+        for g in au:
+            from .. import arith
+            oku = False
+            for bb, t in calls(g, arith.INDEX):
+                tgt = arg_origin_calls(g, t, 0)
+                rng = op_place(t["args"][1])
+                bound_from_len = False
+                if rng is not None:
+                    locs, cr, _ = data_deps(g, rng["l"])
+                    bound_from_len = any(call_matches(ct, r"buf_len$") for _, ct in cr)
+                if any(call_matches(x, r"as_uninit$") for x in tgt) and bound_from_len and "RangeFrom" in (t.get("ga") or ["", ""])[1]:
+                    oku = True
+            ctx.ob("R1", "uninit-view-skips-recorded-bytes", oku,
+                   "Uninit::as_uninit re-slices the inner writable region from the view's own recorded length: a second fill "
+                   "lands behind the first one and the writable region shrinks as it is filled", g)
     # ---------------- R2
     sl = "compio_buf::slice::Slice"
     for nm, q in (("end_or_len", r"buf_len$"), ("end_or_cap", r"buf_capacity$")):
